@@ -60,6 +60,33 @@ def check_one(cfg, exp):
         lk = GA.index_lookup(np.array(vals), np.array(want_c))
         if [int(x) for x in lk] != want_i:
             return ('index_lookup', want_i, [float(x) for x in lk])
+        # the same values in every 2-d arrangement of the sequence and every memory layout: codes are positional, so
+        # categories[codes] must reproduce the array element by element whatever the strides
+        n = len(vals)
+        for rows in range(1, n + 1):
+            if n % rows:
+                continue
+            base = np.array(vals).reshape(rows, n // rows)
+            layouts = {'C': base, 'F': np.asfortranarray(base), 'T': np.array(vals).reshape(n // rows, rows).T,
+                       'strided': np.array(vals + vals).reshape(rows, 2 * (n // rows))[:, ::2] if n // rows >= 1 else base}
+            for lname, arr in layouts.items():
+                ref = [[str(v) for v in row] for row in np.asarray(arr).tolist()]
+                cc = GA.categorical_ndarray(arr) if lname in ('C', 'F') else GA.categorical_ndarray(base if lname == 'T' and False else np.asarray(arr))
+                if lname == 'T':
+                    cc = GA.categorical_ndarray(np.array(vals).reshape(n // rows, rows)).T      # a transposed VIEW of a categorical array
+                cats = [str(x) for x in cc.categories]
+                codes = np.asarray(cc.codes)
+                if cats != sorted(set(v for row in ref for v in row)):
+                    return ('categories[%s %dx%d]' % (lname, rows, n // rows), sorted(set(v for row in ref for v in row)), cats)
+                if codes.shape != np.shape(arr):
+                    return ('codes_shape[%s %dx%d]' % (lname, rows, n // rows), list(np.shape(arr)), list(codes.shape))
+                back = [[cats[int(i)] for i in row] for row in codes.tolist()]
+                if back != ref:
+                    return ('categories[codes][%s %dx%d]' % (lname, rows, n // rows), ref, back)
+                U2, I2 = GA.unique(np.asarray(arr))
+                back2 = [[str(U2[int(i)]) for i in row] for row in np.asarray(I2).reshape(np.shape(arr)).tolist()]
+                if back2 != ref:
+                    return ('unique[%s %dx%d]' % (lname, rows, n // rows), ref, back2)
         return None
     if kind == 'view_shape':
         from harness.adapters.views import concretise
